@@ -45,6 +45,21 @@ def _worker(args):
         return r
 
 
+def _sample_worker(args):
+    idx, n, seed, modnames = args
+    import warnings
+    warnings.simplefilter("ignore")
+    for m in modnames:
+        importlib.import_module(m)
+    from pyvc.sample import sample_contract
+    contracts = {c.name: c for c in S.REGISTRY}
+    try:
+        return sample_contract(S.REGISTRY[idx], contracts, n, seed)
+    except Exception:
+        return {"contract": S.REGISTRY[idx].name, "evaluations": 0, "distinct": 0, "mismatches": [],
+                "skipped": "sampler crashed: " + traceback.format_exc()[-400:], "seconds": 0.0}
+
+
 def load_json(path, default):
     try:
         with open(path) as f:
@@ -227,8 +242,33 @@ def main(argv):
     missing = [n for n in lock if n not in proved_names and not any(n == v[0] for v in violations)
                and not any(n.startswith(d["function"] + "#") for d in demoted)
                and not any(u.startswith(n) for u in undecided) and not any(n in (k.get("obligation") if isinstance(k.get("obligation"), list) else [k.get("obligation")]) for k in known_hits)]
-    # ------------------------------------------------------------------ bounded layer
+    # ------------------------------------------------------------------ runtime sampling of the contracts
     bounded = []
+    sjobs = [(idx, 10 if tier == "quick" else 60, seed, modnames) for idx, c in enumerate(S.REGISTRY) if prop in c.property_ids]
+    if sjobs and os.environ.get("VERIF_NO_SAMPLING") != "1":
+        ctx = multiprocessing.get_context("fork")
+        with ctx.Pool(min(int(os.environ.get("VERIF_JOBS", "16")), len(sjobs))) as pool:
+            sres = pool.map(_sample_worker, sjobs, chunksize=1)
+        sviol = []
+        sampling_notes = []
+        for r in sres:
+            for mm in r["mismatches"]:
+                if mm["kind"] == "native-violation":
+                    for cl in mm.get("violated", ["?"]):
+                        sviol.append({"id": safe(r["contract"].split("::")[-1]) + "_" + safe(cl), "clause": "sampled_contract_violated",
+                                      "obligation": r["contract"] + ("#raise/" if cl.startswith("undeclared/") or cl.startswith("raise/") else "#post/") + (cl[len("raise/"):] if cl.startswith("raise/") else cl),
+                                      "why": "the real function violates contract clause %s of %s on a sampled input (raised: %s, result: %s)" % (cl, r["contract"], mm.get("raised"), mm.get("result")),
+                                      "inputs": mm["inputs"]})
+                else:
+                    # a harness limitation (native set-up failed / native requires differs): recorded, never a verdict
+                    sampling_notes.append("%s: %s: %s" % (r["contract"], mm["kind"], str(mm.get("detail"))[:300]))
+        bounded.append({"name": "contract_sampling", "label": "bounded (CPython differential, DESIGN 4.4)",
+                        "evaluations": sum(r["evaluations"] for r in sres), "distinct_nontrivial": sum(r["distinct"] for r in sres),
+                        "rule": "for every contract: models of (type facts and requires) drawn from z3 with randomly pinned boundary values (sequence lengths <= 24), the REAL function run natively on each and the same contract text evaluated by CPython; distinct = distinct input tuples",
+                        "bound": "%d draws per contract" % (10 if tier == "quick" else 60), "exhaustive": False,
+                        "samples": [{"contract": r["contract"], "evaluations": r["evaluations"], "skipped": r["skipped"]} for r in sres][:40],
+                        "harness_notes": sampling_notes[:10],
+                        "violations": sviol[:6], "seconds": round(sum(r["seconds"] for r in sres), 2)})
     for bname in cfg.get("bounded", []):
         try:
             bm = importlib.import_module(bname)
@@ -237,17 +277,20 @@ def main(argv):
             errors.append("bounded check %s crashed:\n%s" % (bname, traceback.format_exc()))
             continue
         bounded.append(br)
+    for br in bounded:
+        bname = br["name"]
         for v in br.get("violations", [])[:3]:
             d = os.path.join(ROOT, "replay", prop)
             os.makedirs(d, exist_ok=True)
             path = os.path.join(d, safe("bounded_" + br["name"] + "_" + v.get("id", "x")) + ".json")
             with open(path, "w") as f:
                 json.dump({"property": prop, "bounded_check": bname, "violation": v}, f, indent=1, default=repr)
-            k = matches_known(known, prop, "bounded:" + br["name"] + ":" + v.get("clause", ""), v.get("inputs"), v)
+            obname = v.get("obligation") or ("bounded:" + br["name"] + ":" + v.get("clause", ""))
+            k = matches_known(known, prop, obname, v.get("inputs"), v)
             if k:
                 known_hits.append(k)
             else:
-                violations.append(("bounded:" + br["name"] + ":" + v.get("clause", ""), path, ""))
+                violations.append((obname + (" (native sampling)" if v.get("obligation") else ""), path, ""))
     # ------------------------------------------------------------------ verdict + evidence
     wall = time.time() - t0
     level = cfg["level"]
